@@ -139,8 +139,11 @@ static void foreign(vt::Rng& r, size_t w, size_t h, size_t exhaustive_limit) {
     for (const char* tt : {"GRAYSCALE", "GRAYSCALE_ALPHA", "RGB", "RGB_ALPHA"}) {
       int ch = string(tt) == "GRAYSCALE" ? 1 : string(tt) == "GRAYSCALE_ALPHA" ? 2 : string(tt) == "RGB" ? 3 : 4;
       string hdr = "P7\nWIDTH " + to_string(w) + "\nHEIGHT " + to_string(h) + "\nDEPTH " + to_string(ch) + "\nMAXVAL " + mv + "\nTUPLTYPE " + tt + "\nENDHDR\n";
-      if (r.chance(30)) hdr = "P7\nTUPLTYPE " + string(tt) + " \nMAXVAL " + mv + "\nHEIGHT " + to_string(h) + "\nWIDTH " + to_string(w) + "\nENDHDR\n";
       files.push_back({string("P7/") + tt + "/" + to_string(cwb * 8), hdr + rnd(w * h * ch * cwb)});
+      // header lines may come in any order (TUPLTYPE before DEPTH, dimensions last), with trailing blanks
+      string hdr2 = "P7\nTUPLTYPE " + string(tt) + " \nMAXVAL " + mv + "\nDEPTH " + to_string(ch) + "\nHEIGHT " + to_string(h) + "\nWIDTH " + to_string(w) + "\nENDHDR\n";
+      string hdr3 = "P7\nMAXVAL " + mv + "\nTUPLTYPE " + string(tt) + "\nHEIGHT " + to_string(h) + " \nWIDTH " + to_string(w) + "\nENDHDR\n";
+      files.push_back({string("P7perm/") + tt + "/" + to_string(cwb * 8), (r.chance(60) ? hdr2 : hdr3) + rnd(w * h * ch * cwb)});
     }
   }
   if (w <= 4 && h <= 4) {
